@@ -2346,7 +2346,18 @@ def _preprocess_kwargs_kv_pairs(
                 if isinstance(key.val, str):
                     if key in covered_keys:
                         continue
-                    out_items[key.val] = (pair.is_required, pair.value)
+                    if key.val in out_items:
+                        # a later entry for this key that may be absent
+                        _, later_value = out_items[key.val]
+                        out_items[key.val] = (
+                            pair.is_required,
+                            unite_values(pair.value, later_value),
+                        )
+                    else:
+                        out_items[key.val] = (pair.is_required, pair.value)
+                    if pair.is_required:
+                        # earlier entries for this key are overwritten
+                        covered_keys.add(key)
                     continue
                 else:
                     ctx.on_error(
